@@ -51,4 +51,106 @@ theorem toolPath_success_shape (tools : List ToolReg) (allowed : Option (List St
   · simp [R.fail] at h
   · simp [R.fail] at h
 
+/-! #### keyword arguments reach the tool as written -/
+
+/-- one step of `dictOf` -/
+def dictStep (acc : List (String × Val)) (kv : String × Val) : List (String × Val) :=
+  if acc.any (fun p => p.1 = kv.1) then acc.map (fun p => if p.1 = kv.1 then (p.1, kv.2) else p) else acc ++ [kv]
+
+theorem dictOf_eq_foldl (ks : List (String × Val)) : dictOf ks = ks.foldl dictStep [] := rfl
+
+theorem foldl_dictStep_fresh : ∀ (ks acc : List (String × Val)),
+    (∀ k ∈ ks.map (·.1), k ∉ acc.map (·.1)) → (ks.map (·.1)).Nodup → ks.foldl dictStep acc = acc ++ ks
+  | [], acc, _, _ => by simp
+  | kv :: ks, acc, hfresh, hnd => by
+    have h1 : kv.1 ∉ acc.map (·.1) := hfresh kv.1 (by simp)
+    have hany : acc.any (fun p => p.1 = kv.1) = false := by
+      rw [Bool.eq_false_iff]
+      intro h
+      simp only [List.any_eq_true, decide_eq_true_eq] at h
+      obtain ⟨p, hp, he⟩ := h
+      exact h1 (by rw [← he]; exact List.mem_map_of_mem hp)
+    simp only [List.foldl_cons, dictStep, hany, Bool.false_eq_true, if_false]
+    simp only [List.map_cons, List.nodup_cons] at hnd
+    rw [foldl_dictStep_fresh ks (acc ++ [kv]) ?_ hnd.2]
+    · simp
+    · intro k hk
+      simp only [List.map_append, List.map_cons, List.map_nil, List.mem_append, List.mem_singleton, not_or]
+      refine ⟨hfresh k (by simp [hk]), ?_⟩
+      intro he; subst he
+      exact hnd.1 hk
+
+/-- keyword names that are pairwise distinct reach the tool exactly as written, in order -/
+theorem dictOf_nodup (ks : List (String × Val)) (h : (ks.map (·.1)).Nodup) : dictOf ks = ks := by
+  rw [dictOf_eq_foldl, foldl_dictStep_fresh ks [] (by simp) h]; simp
+
+section kws
+variable (T : Tables) (env : Env)
+
+/-- the keys of successfully evaluated keyword arguments are keyword names of the call -/
+theorem walkKws_keys : ∀ (kv : List Expr) (kn : List (Option String)) (t : List Act) (ks : List (String × Val)),
+    walkKws T env kn kv = (t, .ok ks) → ∀ k ∈ ks.map (·.1), some k ∈ kn
+  | [], kn, t, ks, h => by
+    unfold walkKws at h
+    simp only [R.pure, Prod.mk.injEq, Except.ok.injEq] at h
+    obtain ⟨_, rfl⟩ := h
+    simp
+  | e :: es, kn, t, ks, h => by
+    unfold walkKws at h
+    split at h
+    · simp only [R.pure, Prod.mk.injEq, Except.ok.injEq] at h
+      obtain ⟨_, rfl⟩ := h
+      simp
+    · simp [R.fail] at h
+    · rename_i n ns
+      rcases h1 : walk T env e with ⟨t1, r1⟩
+      cases r1 with
+      | error er => simp [R.bind, h1] at h
+      | ok v =>
+        rcases h2 : walkKws T env ns es with ⟨t2, r2⟩
+        cases r2 with
+        | error er => simp [R.bind, h1, h2] at h
+        | ok r =>
+          simp only [R.bind, R.pure, h1, h2, Prod.mk.injEq, Except.ok.injEq] at h
+          obtain ⟨_, rfl⟩ := h
+          intro k hk
+          simp only [List.map_cons, List.mem_cons] at hk
+          rcases hk with rfl | hk
+          · simp
+          · exact List.mem_cons_of_mem _ (walkKws_keys es ns t2 r h2 k hk)
+
+/-- … and are pairwise distinct when no keyword name is repeated in the call -/
+theorem walkKws_nodup : ∀ (kv : List Expr) (kn : List (Option String)) (t : List Act) (ks : List (String × Val)),
+    walkKws T env kn kv = (t, .ok ks) → hasDupKw kn = false → (ks.map (·.1)).Nodup
+  | [], kn, t, ks, h, _ => by
+    unfold walkKws at h
+    simp only [R.pure, Prod.mk.injEq, Except.ok.injEq] at h
+    obtain ⟨_, rfl⟩ := h
+    simp
+  | e :: es, kn, t, ks, h, hd => by
+    unfold walkKws at h
+    split at h
+    · simp only [R.pure, Prod.mk.injEq, Except.ok.injEq] at h
+      obtain ⟨_, rfl⟩ := h
+      simp
+    · simp [R.fail] at h
+    · rename_i n ns
+      rcases h1 : walk T env e with ⟨t1, r1⟩
+      cases r1 with
+      | error er => simp [R.bind, h1] at h
+      | ok v =>
+        rcases h2 : walkKws T env ns es with ⟨t2, r2⟩
+        cases r2 with
+        | error er => simp [R.bind, h1, h2] at h
+        | ok r =>
+          simp only [R.bind, R.pure, h1, h2, Prod.mk.injEq, Except.ok.injEq] at h
+          obtain ⟨_, rfl⟩ := h
+          simp only [hasDupKw, Bool.or_eq_false_iff] at hd
+          simp only [List.map_cons, List.nodup_cons]
+          refine ⟨fun hmem => ?_, walkKws_nodup es ns t2 r h2 hd.2⟩
+          have := walkKws_keys T env es ns t2 r h2 n hmem
+          have hc : ns.contains (some n) = true := by simpa using this
+          rw [hd.1] at hc; cases hc
+end kws
+
 end Operon.Mito
